@@ -207,8 +207,10 @@ def main(argv):
         'repo': {'path': H.REPO, 'head': head, 'dirty': dirty},
         'technique': getattr(mod, 'TECHNIQUE', ''),
     }
-    os.makedirs(os.path.join(H.VERIF, 'evidence'), exist_ok=True)
-    with open(os.path.join(H.VERIF, 'evidence', prop + '.json'), 'w') as f:
+    # evidence describes /repo; runs against another tree (seeded-change self-tests) write elsewhere
+    evdir = os.environ.get('VERIF_EVIDENCE_DIR') or os.path.join(H.VERIF, 'evidence')
+    os.makedirs(evdir, exist_ok=True)
+    with open(os.path.join(evdir, prop + '.json'), 'w') as f:
         json.dump(ev, f, indent=1, sort_keys=True, default=str)
     print('%s %s seed=%d: %d evaluations, %d distinct non-trivial, %d violations, %d known-finding hits, '
           '%.1fs' % (prop, tier, seed, m['evaluations'], len(m['hashes']), len(violations),
